@@ -105,8 +105,8 @@ def ext_text(rng, ext, plain=False):
     for n, s in ext:
         if n == 1 and (plain or rng.random() < 0.6):
             toks.append(s)
-        else:
-            toks.append("%s%s" % (n, s))
+        else:   # the count may be set off from its symbol by any amount of blank space (column-aligned spellings)
+            toks.append("%s%s%s" % (n, "" if plain or rng.random() < 0.75 else rng.choice([" ", "  ", " \t", "   "]), s))
     if plain:
         return "".join(toks)
     return "".join(t + (" " if rng.random() < 0.4 else "") for t in toks).strip() or toks and "".join(toks) or ""
@@ -727,6 +727,24 @@ def gen_pil_doc(rng, struct_ok=False, conflicts=True):
             items = keep
             if len(items) < 2: continue
         lines.append(["equal", items])
+    # a chain of equal statements through sequences that are on no strand: `equal t u` BEFORE `equal u a`
+    # (the template of t must still reach the strand sequence a; a and c tied through unused ones only)
+    if rng.random() < 0.15:
+        onstrand = sorted({n for l in lines if l[0] == "strand" for n, _ in l[3] if n in [x[1] for x in lines if x[0] == "sequence"]})
+        if onstrand:
+            a = rng.choice(onstrand); L = seqs[a]
+            tpl = "".join(rng.choice("ACGT") if rng.random() < 0.5 else "N" for _ in range(L))
+            nseq = max(i for i, l in enumerate(lines) if l[0] == "sequence") + 1
+            new = [["sequence", "zt", tpl, L], ["sequence", "zu", "N" * L, L]]
+            for k, l in enumerate(new): lines.insert(nseq + k, l)
+            for i, c in enumerate(tpl): uf.add(("zt", i), c)
+            for i in range(L): uf.add(("zu", i), "N")
+            ok = all(uf.try_link(("zt", i), ("zu", i), 0) and uf.try_link(("zu", i), (a, i), 0) for i in range(L)) if sat_biased else True
+            if ok or not sat_biased:
+                lines.append(["equal", [["zt", False], ["zu", False]]])
+                lines.append(["equal", [["zu", False], [a, False]]])
+            else:
+                del lines[nseq:nseq + 2]
     if rng.random() < 0.2 and lines:
         st = [l[2] for l in lines if l[0] == "structure"]
         lines.append(["kinetic", 0.0, float("inf"), [rng.choice(st)], [rng.choice(st)]])
